@@ -106,8 +106,8 @@ theorem read2_cmd (t : Tag) (page : Nat) (s : S2) :
       | (.ok d, s') =>
         if t2IsNak d then
           match xchg t s'.w [] with
-          | (some _, w') => (.error (.tagCmd 2), { s' with w := w', alive := true })
-          | (none, w') => (.error (.tagCmd (-1)), { s' with w := w', alive := false })
+          | (some _, w') => (.error (.tagCmd 2), { s' with w := w', alive := true, sector := 0 })
+          | (none, w') => (.error (.tagCmd (-1)), { s' with w := w', alive := false, sector := 0 })
         else (t2ReadRsp d, s') := by
   unfold read2
   have hc : t2ReadCmd (page : Int) = [0x30, page % 256] := by
